@@ -181,7 +181,7 @@ func init() {
 	})
 	core.Register(&core.Profile{
 		ID: "C09", Engine: "graphsim", Quick: 1000, Thorough: 40000, ThoroughSeeds: 3, Run: runC09, RaceQuick: 300, RaceThorough: 6000,
-		Rule: "each run draws a plan (all modes, state, branches, nested graphs), 2-4 caller tasks with distinct inputs calling the one compiled object concurrently in drawn paradigms with their own lambda option and callback handler, and one schedule interleaving all of them; oracle: every call equals the reference model for its own input, state objects are per run (fresh, never touched by another run's handlers), options and callback handlers only ever see their own run",
+		Rule: "each run draws a plan (all modes, state, branches, nested graphs), 2-4 caller tasks with distinct inputs calling the one compiled object concurrently in drawn paradigms with their own lambda option and callback handler, and one schedule interleaving all of them; oracle: every call equals the reference model for its own input, state objects are per run (fresh, never touched by another run's handlers), options and callback handlers only ever see their own run; in the ReAct scenario the callers share one input slice with spare capacity in half of the runs and the tools tag their answers with the caller; 300/6000 additional race-detector runs (Mode B)",
 		Real: graphReal, Stub: graphStub,
 		Faults: []string{"interleaving of several runs", "mixed paradigms"},
 	})
